@@ -281,6 +281,10 @@ pub fn run_c16<K: KeyLike>(t: &C16Case) -> CaseReport {
         if !guarded!(rep, target.clone_from_other(&a)) {
             return rep;
         }
+        if a.cb.is_some() && target.cb.is_none() {
+            rep.violation = Some(Violation { prop: "C16", step: 0, msg: format!("after `target.clone_from(&source)` the target ({:?}) does not carry a clone of the source's eviction callback (the callback was not cloned at all): it is not a copy of the source", kind), sig: format!("{}/clone_from/callback-not-cloned", kind.short()) });
+            return rep;
+        }
         if let Some(id) = a.cb {
             // entries the target held before are released by clone_from; that may or may not
             // count as "leaving the cache" for the callback: not judged
